@@ -706,7 +706,7 @@ func vAddOverlapping(s *store, a, b vGenEvent, at int) (errA, errB error, fired 
 	released := false
 	select {
 	case errB = <-doneB:
-	case <-time.After(20 * time.Second):
+	case <-time.After(90 * time.Second):
 		// b cannot complete while a is parked OUTSIDE any transaction: the store serialises on something it holds
 		// across write transactions. Let a go on, so that the run continues; the hang is an outcome.
 		if fired {
